@@ -6,7 +6,7 @@
    row of a statement, in ANY order. *)
 From Coq Require Import List ZArith Bool Permutation Sorted.
 Import ListNotations.
-From SAV.sql Require Import IMV IMVPlan IMVMerge IMVExpand IMVWhole IMVRun IMVRunProofs.
+From SAV.sql Require Import IMV IMVPlan IMVMerge IMVExpand IMVWhole IMVOrm IMVRun IMVRunProofs.
 Open Scope Z_scope.
 
 (* ---------------- mode decision ---------------- *)
@@ -197,8 +197,9 @@ Print Assumptions c12_implicit_sort_restores.
    statement -, client-side single or composite, implicit autoincrement) and EVERY order in which
    the database returns the rows of each statement, the n-th row of the result is the row of the
    n-th parameter set, and every parameter set was sent exactly once.
-   Guard [uniform_ext]: the parameter sets agree on the bound parameters that are not inside VALUES
-   (trivially so when there are none) - see c12_sorted_returning_refuted. *)
+   Guard [ext_guard]: row-at-a-time mode (every statement carries one parameter set: e.g. an upsert
+   whose SET clause holds a bound parameter), or the parameter sets agree on the bound parameters
+   that are not inside VALUES (trivially so when there are none) - see c12_sorted_returning_refuted. *)
 Theorem c12_sorted_returning_guarded : forall (P K R X : Type) (key_eqb : K -> K -> bool),
   (forall a b, key_eqb a b = true <-> a = b) ->
   forall (sent_of_param : P -> K) (sent_of_row : R -> K) (sort_key : R -> Z) (ext : P -> X)
@@ -208,7 +209,7 @@ Theorem c12_sorted_returning_guarded : forall (P K R X : Type) (key_eqb : K -> K
   1 <= c_batch_size c -> clamp_pre c -> wf_config c ->
   c_is_returning c = true -> c_imv_sbo c = true -> result_columns (c_flags c) = true ->
   sentinel_hyp sent_of_param sent_of_row sort_key row_of c ps ->
-  uniform_ext ext ps ->
+  ext_guard ext c ps ->
   o_result (execute key_eqb sent_of_param sent_of_row sort_key ext fetch c ps)
     = Ok (map (fun p => row_of (Some (ext p)) p) ps) /\
   concat (map b_items (o_executed (execute key_eqb sent_of_param sent_of_row sort_key ext fetch c ps))) = ps.
@@ -271,12 +272,46 @@ Theorem c12_unsorted_one_row_per_param : forall (P K R X : Type) (key_eqb : K ->
     (fetch : nat -> option X -> list P -> list R) (row_of : option X -> P -> R),
   (forall k x items, Permutation (map (row_of x) items) (fetch k x items)) ->
   forall (c : config) (ps : list P),
-  1 <= c_batch_size c -> clamp_pre c -> c_is_returning c = true -> c_num_sentinel c = 0 -> uniform_ext ext ps ->
+  1 <= c_batch_size c -> clamp_pre c -> c_is_returning c = true -> c_num_sentinel c = 0 -> ext_guard ext c ps ->
   exists rows, o_result (execute key_eqb sent_of_param sent_of_row sort_key ext fetch c ps) = Ok rows /\
     Permutation (map (fun p => row_of (Some (ext p)) p) ps) rows /\
     concat (map b_items (o_executed (execute key_eqb sent_of_param sent_of_row sort_key ext fetch c ps))) = ps.
 Proof. exact @execute_unsorted_perm. Qed.
 Print Assumptions c12_unsorted_one_row_per_param.
+
+(* ---------------- ORM bulk INSERT (orm/persistence.py _emit_insert_statements) ---------------- *)
+(* the records are executed in runs of equal key sets: the runs concatenate to the records *)
+Theorem c12_orm_groups_partition : forall (A K : Type) (key_eqb : K -> K -> bool) (key : A -> K) (l : list A),
+  concat (group_by key_eqb key l) = l /\ Forall (fun g => g <> []) (group_by key_eqb key l).
+Proof. intros A K key_eqb key l. exact (conj (group_by_concat key_eqb key l) (group_by_nonempty key_eqb key l)). Qed.
+Print Assumptions c12_orm_groups_partition.
+
+(* if every group's executemany delivers its rows in parameter order (c12_sorted_returning_guarded),
+   the spliced result is in parameter order for every sequence of key sets (None = no record) *)
+Theorem c12_orm_bulk_in_parameter_order : forall (A K R : Type) (key_eqb : K -> K -> bool) (key : A -> K)
+    (exec_group : list A -> list R) (row_of : A -> R) (records : list A),
+  (forall g, In g (group_by key_eqb key records) -> exec_group g = map row_of g) ->
+  orm_bulk_insert key_eqb key exec_group records
+  = match records with [] => None | _ :: _ => Some (map row_of records) end.
+Proof. exact @orm_bulk_in_parameter_order. Qed.
+Print Assumptions c12_orm_bulk_in_parameter_order.
+
+(* without sort_by_parameter_order: one row per record *)
+Theorem c12_orm_bulk_one_row_per_record : forall (A K R : Type) (key_eqb : K -> K -> bool) (key : A -> K)
+    (exec_group : list A -> list R) (row_of : A -> R) (records : list A) (rows : list R),
+  (forall g, In g (group_by key_eqb key records) -> Permutation (map row_of g) (exec_group g)) ->
+  orm_bulk_insert key_eqb key exec_group records = Some rows ->
+  Permutation (map row_of records) rows.
+Proof. exact @orm_bulk_one_row_per_record. Qed.
+Print Assumptions c12_orm_bulk_one_row_per_record.
+
+(* key sets a a b c c a: four executemany calls, rows a1 a2 b1 c1 c2 a3 *)
+Example c12_ex_orm :
+  group_by Z.eqb (fun r : orm_record => fst (snd r)) (orm_index 0 [1; 1; 0; 3; 3; 1] [11; 12; 21; 31; 32; 13])
+  = [[(0%nat, (1, 11)); (1%nat, (1, 12))]; [(2%nat, (0, 21))]; [(3%nat, (3, 31)); (4%nat, (3, 32))]; [(5%nat, (1, 13))]]
+  /\ orm_bulk_insert Z.eqb (fun r : orm_record => fst (snd r)) (orm_exec true) (orm_index 0 [1; 1; 0; 3; 3; 1] [11; 12; 21; 31; 32; 13])
+  = Some [[1; 11]; [2; 12]; [3; 21]; [4; 31]; [5; 32]; [6; 13]].
+Proof. vm_compute. split; reflexivity. Qed.
 
 (* ---------------- the hypotheses are satisfiable ---------------- *)
 (* the concrete database used by the correspondence check (rows of each statement sorted by
@@ -327,8 +362,17 @@ Proof. vm_compute. reflexivity. Qed.
 Example c12_ex_wf_layout : wf_layout (mkLayout [false; true; true] 2 true false) [[50; 7; 100]; [60; 3; 101]].
 Proof. split; [repeat constructor|reflexivity]. Qed.
 (* the guard of the property theorem holds, e.g., whenever nothing is bound outside VALUES *)
-Example c12_ex_uniform_ext : uniform_ext (ext_of [true; true]) ex_ps.
-Proof. intros p q _ _. unfold ext_of. destruct p as [i [|a [|b t]]], q as [j [|a' [|b' t']]]; reflexivity. Qed.
+Example c12_ex_ext_guard : ext_guard (ext_of [true; true]) (ex_cfg 1 false true) ex_ps.
+Proof. right. intros p q _ _. unfold ext_of. destruct p as [i [|a [|b t]]], q as [j [|a' [|b' t']]]; reflexivity. Qed.
+(* an upsert whose SET clause holds a per-row bound parameter runs row-at-a-time: every row is
+   computed with its own SET value (rows [id; new value]), here for rows that all existed before *)
+Example c12_ex_upsert_rowmode :
+  let c := mkConfig (mkFlags false true true true true true false true) 1000 32700 3 2 true false 0 false false false in
+  fst (decide_mode (c_sbo c) (c_flags c)) = true /\
+  o_result (execute list_eqb (sent_of_param []) (sent_of_row 0) sort_key (ext_of [true; true; false])
+                    (fetch_db [[1; 0]; [4]] [] []) c [(0%nat, [7; 100; 41]); (1%nat, [3; 101; 42]); (2%nat, [9; 102; 43])])
+  = Ok [[7; 41]; [3; 42]; [9; 43]].
+Proof. vm_compute. split; reflexivity. Qed.
 Example c12_ex_sentinel_hyp :
   sentinel_hyp (sent_of_param [0%nat]) (sent_of_row 1) sort_key (db_row [[1; 0]; [1; 1]; [1; 0]]) (ex_cfg 1 false true) ex_ps.
 Proof. right. left. repeat split. cbn. repeat constructor; cbn; intuition discriminate. Qed.
